@@ -109,15 +109,33 @@ func (d *typeDictionary) findExternal(n Node, prefix, name string) (*Typedef, er
 		return td, nil
 	}
 	// The typedef may be written in one of the module's submodules.
-	for _, in := range root.Include {
-		if td := d.find(in.Module, name); td != nil {
-			return td, nil
-		}
+	if td := d.findIncluded(root, name); td != nil {
+		return td, nil
 	}
 	if prefix != "" {
 		name = prefix + ":" + name
 	}
 	return nil, fmt.Errorf("%s: unknown type %s", Source(n), name)
+}
+
+// findIncluded finds the typedef name at the top level of the submodules that
+// root includes and of the submodules those include in turn: the definitions
+// of all of them belong to the module (RFC 6020 7.1.6).
+func (d *typeDictionary) findIncluded(root *Module, name string) *Typedef {
+	seen := map[*Module]bool{root: true}
+	for todo := []*Module{root}; len(todo) > 0; todo = todo[1:] {
+		for _, in := range todo[0].Include {
+			if in.Module == nil || seen[in.Module] {
+				continue
+			}
+			seen[in.Module] = true
+			if td := d.find(in.Module, name); td != nil {
+				return td
+			}
+			todo = append(todo, in.Module)
+		}
+	}
+	return nil
 }
 
 // typedefs returns a slice of all typedefs in d.
@@ -257,10 +275,8 @@ check:
 			}
 		}
 		// We need to check our sub-modules as well
-		for _, in := range root.Include {
-			if td = d.find(in.Module, name); td != nil {
-				break check
-			}
+		if td = d.findIncluded(root, name); td != nil {
+			break check
 		}
 		var pname string
 		switch {
